@@ -23,7 +23,13 @@ def parser():
 
 
 def parse(src):
-    return parser().parse(src)
+    """pycparser's lexer can be left in a bad state by a parse error: use a fresh parser afterwards"""
+    global _PARSER
+    try:
+        return parser().parse(src)
+    except Exception:
+        _PARSER = None
+        raise
 
 
 def header(name="f", params=PARAMS):
@@ -141,7 +147,9 @@ class Gen:
             f"for ({it} = 0, j = 0; {it} < {g}; {it}++)", f"for ({it} = {g}; {it} > 0; {it}--)", f"for (; {it} < {g}; {it}++)",
             f"for ({it} = 0; {it} < {g}; )", f"for ({it} = 0; {it} < {g}++; {it}++)", f"for ({it} = 0; ({g} = {g} - 1) > {it}; {it}++)",
             f"for ({it} = y; {it} < {g}; {it}++)", f"for ({it} = 0; g() > {it}; {it}++)", f"for ({it} = 0; {it} < arr[{g}]; {it}++)",
-            f"for (int k2 = 0, k3 = 1; k2 < {g}; k2++)", f"for ({it} = 0; {it} < {g}; {it}++, y++)"])
+            f"for (int k2 = 0, k3 = 1; k2 < {g}; k2++)", f"for ({it} = 0; {it} < {g}; {it}++, y++)",
+            f"for ({it}++; {it} < {g}; {it}++)", f"for (g(); {it} < {g}; {it}++)", f"for ({it}; {it} < {g}; {it}++)",
+            f"for ({it} += 1; {it} < {g}; {it}++)", f"for ({it} = 0; ; {it}++)"])
 
     def stmt(self, depth=0):
         r = self.r
@@ -187,7 +195,9 @@ def gen_parsed(rng, edge, tries=20, **kw):
     for _ in range(tries):
         src = Gen(rng, edge=edge, **kw).func()
         try:
-            return src, parse(src)
+            ast = parse(src)
+            D.dump(ast)          # pycparser quirks (a list in a single-child slot) are not representable
+            return src, ast
         except Exception:
             continue
     src = header() + "{ x = y + z; }"
@@ -368,8 +378,7 @@ def cq_opt(x, f):
     return "None" if x is None else f"(Some {f(x)})"
 
 
-def cq_strs(xs):
-    return "[" + "; ".join(D.cq_str(s) for s in xs) + "]"
+cq_strs = D.cq_strs
 
 
 def cq_visits(vs):
@@ -383,26 +392,38 @@ def walker_case(tree, obs):
             cq_opt(obs["loops"], D.cq_paths) + ")")
 
 
-def walker_file(cases):
-    t = COQ_HEADER
-    t += ("Definition cases : list (node * option (list path) * option node * option (list string) * option (list path)) :=\n [" +
-          ";\n ".join(cases) + "].\n")
-    t += "Definition list_s_eqb' := Tree.list_s_eqb.\n"
-    t += "Eval vm_compute in bad (fun c => let '(t, ec, em, ev, el) := c in opt_eqb paths_eqb (m_cov t) ec) 0 cases.\n"
-    t += "Eval vm_compute in bad (fun c => let '(t, ec, em, ev, el) := c in opt_eqb node_eqb (m_mod t) em) 0 cases.\n"
-    t += "Eval vm_compute in bad (fun c => let '(t, ec, em, ev, el) := c in opt_eqb list_s_eqb' (vars_of [t]) ev) 0 cases.\n"
-    t += "Eval vm_compute in bad (fun c => let '(t, ec, em, ev, el) := c in opt_eqb paths_eqb (find_loops t) el) 0 cases.\n"
-    t += "Eval vm_compute in bad (fun c => let '(t, ec, em, ev, el) := c in wf_pyc t) 0 cases.\n"
-    return t
+def _with_interning(build):
+    it = D.interning()
+    try:
+        body = build()
+    finally:
+        D.stop_interning()
+    return COQ_HEADER + it.defs() + body
 
 
-def dispatch_file(cases):
-    """cases: [(tree, visits)]"""
-    t = COQ_HEADER
-    t += ("Definition cases : list (node * list (path * bool)) :=\n [" +
-          ";\n ".join("(" + D.cq_tree(tr) + ",\n  " + cq_visits(vs) + ")" for tr, vs in cases) + "].\n")
-    t += "Eval vm_compute in bad (fun c => let '(t, ev) := c in visits_eqb (visits (func_events t)) ev) 0 cases.\n"
-    return t
+def walker_file(items):
+    """items: [(tree, obs)]"""
+    def build():
+        cases = [walker_case(t, o) for t, o in items]
+        t = ("Definition cases : list (node * option (list path) * option node * option (list string) * option (list path)) :=\n [" +
+             ";\n ".join(cases) + "].\n")
+        t += "Eval vm_compute in bad (fun c => let '(t, ec, em, ev, el) := c in opt_eqb paths_eqb (m_cov t) ec) 0 cases.\n"
+        t += "Eval vm_compute in bad (fun c => let '(t, ec, em, ev, el) := c in opt_eqb node_eqb (m_mod t) em) 0 cases.\n"
+        t += "Eval vm_compute in bad (fun c => let '(t, ec, em, ev, el) := c in opt_eqb Tree.list_s_eqb (vars_of [t]) ev) 0 cases.\n"
+        t += "Eval vm_compute in bad (fun c => let '(t, ec, em, ev, el) := c in opt_eqb paths_eqb (find_loops t) el) 0 cases.\n"
+        t += "Eval vm_compute in bad (fun c => let '(t, ec, em, ev, el) := c in wf_pyc t) 0 cases.\n"
+        return t
+    return _with_interning(build)
+
+
+def dispatch_file(items):
+    """items: [(tree, visits)]"""
+    def build():
+        t = ("Definition cases : list (node * list (path * bool)) :=\n [" +
+             ";\n ".join("(" + D.cq_tree(tr) + ",\n  " + cq_visits(vs) + ")" for tr, vs in items) + "].\n")
+        t += "Eval vm_compute in bad (fun c => let '(t, ev) := c in visits_eqb (visits (func_events t)) ev) 0 cases.\n"
+        return t
+    return _with_interning(build)
 
 
 def parse_index_lists(out):
@@ -436,3 +457,109 @@ def run_sharded(prefix, items, make_file, nlists, per=120, timeout=900):
         for s in range(nlists):
             bad[s] += [base + i for i in lists[s]]
     return bad, errs
+
+
+# ---------------------------------------------------------------------------
+# shrinking on the generic tree
+# ---------------------------------------------------------------------------
+
+STMT_SLOTS = ("stmt", "iftrue", "iffalse", "body")
+LIST_SLOTS = ("block_items", "ext", "stmts", "exprs")
+
+
+def t_get(t, path):
+    for s, i in path:
+        t = dict(t[2])[s][i]
+    return t
+
+
+def t_replace(t, path, new):
+    """new = None deletes the node at path (from its list)"""
+    if not path:
+        return new
+    (s, i), rest = path[0], path[1:]
+    kids = []
+    for sl, ns in t[2]:
+        if sl == s:
+            if rest:
+                ns = ns[:i] + [t_replace(ns[i], rest, new)] + ns[i + 1:]
+            elif new is None:
+                ns = ns[:i] + ns[i + 1:]
+            else:
+                ns = ns[:i] + [new] + ns[i + 1:]
+        kids.append((sl, ns))
+    return (t[0], t[1], kids)
+
+
+def t_paths(t, pre=()):
+    yield list(pre), t
+    for s, ns in t[2]:
+        for i, x in enumerate(ns):
+            yield from t_paths(x, pre + ((s, i),))
+
+
+EMPTY = ("EmptyStatement", [], [])
+
+
+def shrink_candidates(t):
+    nodes = list(t_paths(t))
+    # deletions from statement lists, biggest subtrees first
+    dels = []
+    for p, n in nodes:
+        if p and p[-1][0] in LIST_SLOTS:
+            dels.append((D.size(n), p))
+    for _, p in sorted(dels, key=lambda x: -x[0]):
+        yield t_replace(t, p, None)
+    # hoist a statement child in place of its parent
+    for p, n in nodes:
+        if not p or n[0] in ("FuncDef", "FileAST"):
+            continue
+        if p[-1][0] not in LIST_SLOTS + STMT_SLOTS or p[-1][0] == "body" or p[-1][0] == "ext":
+            continue
+        for s, ns in n[2]:
+            if s in ("stmt", "iftrue", "iffalse", "block_items", "stmts"):
+                for c in ns:
+                    if p[-1][0] in LIST_SLOTS or c[0] != "Decl":
+                        yield t_replace(t, p, c)
+    # drop an else branch / replace a body by the empty statement
+    for p, n in nodes:
+        if p and p[-1][0] == "iffalse":
+            yield t_replace(t, p[:-1], (t_get(t, p[:-1])[0], t_get(t, p[:-1])[1],
+                                        [(s, [] if s == "iffalse" else ns) for s, ns in t_get(t, p[:-1])[2]]))
+        if p and p[-1][0] in ("stmt", "iftrue") and n[0] != "EmptyStatement":
+            yield t_replace(t, p, EMPTY)
+
+
+def shrink_tree(tree, pred, budget=400):
+    """greedy: apply the first candidate that still satisfies pred(source text)"""
+    def ok(t):
+        try:
+            src = D.to_c(D.to_node(t))
+            parse(src)
+        except Exception:
+            return None
+        return src if pred(src) else None
+    cur, cur_src = tree, None
+    calls = 0
+    progress = True
+    while progress and calls < budget:
+        progress = False
+        for cand in shrink_candidates(cur):
+            calls += 1
+            if calls >= budget:
+                break
+            s = ok(cand)
+            if s is not None:
+                cur, cur_src, progress = cand, s, True
+                break
+    return cur, cur_src
+
+
+def shrink_source(src, pred, budget=400):
+    """shrink a C source (file with functions); returns the smaller source (or src)"""
+    try:
+        tree = D.dump(parse(src))
+    except Exception:
+        return src
+    _, s = shrink_tree(tree, pred, budget)
+    return s if s is not None else src
